@@ -726,9 +726,27 @@ def _m1_props(rel):
     return out
 
 
+def _m1_mentions_kept(expr, defs, seen=None):
+    """does the condition look at anything kept between calls (the kept object or another static of the function)?  A test of
+    the arguments alone ( if (issorted(x)) return ... ) decides something, but it is not a comparison with a stored key"""
+    seen = seen if seen is not None else set()
+    for x in expr.walk():
+        if x.k != "DeclRefExpr" or not x.decl:
+            continue
+        if x.decl.get("k") == "global" and x.decl.get("repo") and not x.decl.get("constq"):
+            return True
+        if x.decl.get("k") in ("local", "binding") and x.decl.get("id") not in seen:
+            seen.add(x.decl["id"])
+            if any(_m1_mentions_kept(e, defs, seen) for e in defs.get(x.decl["id"], ())):
+                return True
+    return False
+
+
 def _m1_key_atoms(f, expr, static_id, defs, seen):
     """parameters (and members) a condition mentions, through the locals it is written with; the kept object itself is skipped"""
     out = set()
+    if not seen and not _m1_mentions_kept(expr, defs):
+        return out
     for x in expr.walk():
         if x.k == "MemberExpr" and x.decl and x.decl.get("k") == "field" and x.c and x.c[0].strip_all().k == "CXXThisExpr":
             out.add(("this", x.decl["n"], "val"))
@@ -867,6 +885,7 @@ def rule_M1(prog, fixture=False):
                 if any(c.k != "CXXOperatorCallExpr" for c in muts):
                     continue
             writes = []       # (node, value expressions)
+            delegated = []
             for n in f.walk():
                 tgt, vals = None, []
                 if n.k in ("BinaryOperator", "CompoundAssignOperator") and n.op and n.op.endswith("=") and n.op not in ("==", "!=", "<=", ">=") and len(n.c) == 2:
@@ -886,8 +905,17 @@ def rule_M1(prog, fixture=False):
                         cands = [a for i, a in enumerate(args) if (pm[i] if i < len(pm) else "val") in ("ref", "ptr")]
                         if wq in OUTPUT_ITERATOR_RESULT and args:
                             cands.append(output_arg(wq, args))
+                        elif wq in ("std::fill", "std::iota", "std::generate", "std::reverse", "std::sort", "std::stable_sort", "std::rotate",
+                                    "std::partial_sort", "std::nth_element", "std::shuffle") and args:
+                            cands.append(args[0])
                         for a in cands:
                             if ("global", qn) in flow.root(a):
+                                # the kept object itself handed by reference to a function of the library: what is done with it
+                                # - look-up, keyed insertion - happens there and is that function's business
+                                a0 = a.strip_all()
+                                if ce.get("repo") and a0.k == "DeclRefExpr" and a0.decl and a0.decl.get("k") == "global":
+                                    delegated.append(n)
+                                    break
                                 tgt, vals = a, [b for b in args if b.id != a.id]
                                 break
                 if tgt is None or ("global", qn) not in flow.root(tgt):
